@@ -93,6 +93,54 @@ RunItems(B) == FoldLeft(LAMBDA acc, run :
                  << >>, B.runs)
 
 ----------------------------------------------------------------------------
+(* Logarithmic-time versions for long run lists (trace validation of large objects).
+   B carries a field cum with cum[k] = number of set bits before run k.  The recorder logs cum; CumOK
+   validates it with one pass; the binary searches have logarithmic recursion depth.  MC_BVRef checks
+   that these operators agree with the fold-based ones above on every small bit sequence. *)
+
+CumOf(B) == [k \in 1..Len(B.runs) |-> FoldLeft(LAMBDA acc, j : acc + RLen(B.runs[j]), 0, [j \in 1..(k - 1) |-> j])]
+WithCum(B) == [len |-> B.len, runs |-> B.runs, cum |-> CumOf(B)]
+CumOK(B) == /\ Len(B.cum) = Len(B.runs)
+            /\ \A k \in 1..Len(B.runs) : B.cum[k] = IF k = 1 THEN 0 ELSE B.cum[k - 1] + RLen(B.runs[k - 1])
+
+\* largest k in lo..hi with start(k) <= x, or lo - 1
+RECURSIVE FindStart(_, _, _, _)
+FindStart(B, x, lo, hi) == IF lo > hi THEN lo - 1
+                           ELSE LET mid == (lo + hi) \div 2 IN
+                                IF RStart(B.runs[mid]) <= x THEN FindStart(B, x, mid + 1, hi) ELSE FindStart(B, x, lo, mid - 1)
+\* largest k with cum[k] <= r
+RECURSIVE FindCum(_, _, _, _)
+FindCum(B, r, lo, hi) == IF lo > hi THEN lo - 1
+                         ELSE LET mid == (lo + hi) \div 2 IN
+                              IF B.cum[mid] <= r THEN FindCum(B, r, mid + 1, hi) ELSE FindCum(B, r, lo, mid - 1)
+\* largest k with (zeros before run k) <= r
+RECURSIVE FindZeros(_, _, _, _)
+FindZeros(B, r, lo, hi) == IF lo > hi THEN lo - 1
+                           ELSE LET mid == (lo + hi) \div 2 IN
+                                IF RStart(B.runs[mid]) - B.cum[mid] <= r THEN FindZeros(B, r, mid + 1, hi) ELSE FindZeros(B, r, lo, mid - 1)
+
+NR(B) == Len(B.runs)
+OnesF(B) == IF NR(B) = 0 THEN 0 ELSE B.cum[NR(B)] + RLen(B.runs[NR(B)])
+ZerosF(B) == B.len - OnesF(B)
+GetF(B, i) == LET k == FindStart(B, i, 1, NR(B)) IN k >= 1 /\ i < REnd(B.runs[k])
+RankF(B, i) == IF Huge(i) \/ i >= B.len THEN OnesF(B)
+               ELSE LET k == FindStart(B, i, 1, NR(B)) IN
+                    IF k = 0 THEN 0 ELSE B.cum[k] + (IF i - RStart(B.runs[k]) < RLen(B.runs[k]) THEN i - RStart(B.runs[k]) ELSE RLen(B.runs[k]))
+RankZeroF(B, i) == i - RankF(B, i)
+SelectF(B, r) == IF Huge(r) \/ r >= OnesF(B) THEN None
+                 ELSE LET k == FindCum(B, r, 1, NR(B)) IN RStart(B.runs[k]) + (r - B.cum[k])
+SelectZeroF(B, r) == IF Huge(r) \/ r >= ZerosF(B) THEN None
+                     ELSE LET k == FindZeros(B, r, 1, NR(B)) IN IF k = 0 THEN r ELSE r + B.cum[k] + RLen(B.runs[k])
+PredF(B, v) == IF B.len = 0 THEN NoPair
+               ELSE LET w == IF Huge(v) \/ v >= B.len THEN B.len - 1 ELSE v
+                        r == RankF(B, w + 1)
+                    IN IF r = 0 THEN NoPair ELSE <<r - 1, SelectF(B, r - 1)>>
+SuccF(B, v) == IF Huge(v) \/ v >= B.len THEN NoPair
+               ELSE LET r == RankF(B, v) IN IF r >= OnesF(B) THEN NoPair ELSE <<r, SelectF(B, r)>>
+\* items of the run iterator from the logged cum
+RunItemF(B, k) == <<RStart(B.runs[k]), RLen(B.runs[k]), REnd(B.runs[k]), B.cum[k] + RLen(B.runs[k]), REnd(B.runs[k]) - B.cum[k] - RLen(B.runs[k])>>
+
+----------------------------------------------------------------------------
 (* Bit-sequence representation (independent definitions) *)
 
 BLen(bits) == Len(bits)
@@ -140,4 +188,15 @@ Agree(bits) ==
     /\ LET P == OnePairs(B) IN
          /\ Len(P) = Ones(B)
          /\ \A k \in 1..Len(P) : P[k] = <<k - 1, Select(B, k - 1)>>
+    /\ LET C == WithCum(B) IN
+         /\ CumOK(C)
+         /\ OnesF(C) = Ones(B)
+         /\ \A i \in 0..(n - 1) : GetF(C, i) = Get(B, i)
+         /\ \A a \in Args(n) :
+               /\ RankF(C, a) = Rank(B, a)
+               /\ SelectF(C, a) = Select(B, a)
+               /\ SelectZeroF(C, a) = SelectZero(B, a)
+               /\ PredF(C, a) = Pred(B, a)
+               /\ SuccF(C, a) = Succ(B, a)
+         /\ \A k \in 1..Len(B.runs) : RunItemF(C, k) = RunItems(B)[k]
 =============================================================================
